@@ -1,5 +1,6 @@
 import Driver.Util
 import JadeModel.Model.System
+import JadeModel.Model.SystemPlain
 
 /-!
 Replays the boundary-event history of a real execution (recorded by harness/vcluster.py, translated by
@@ -43,18 +44,19 @@ def pcName : SPc → String
   | .summarized => "summarized" | .flagged => "flagged" | .failing => "failing" | .gone => "gone"
 
 /-- try ops in order; the first accepted prefix-chain wins -/
-def tryChain (s : Sys) : List Op → Option Sys
+def tryChain (stp : Sys → Op → Option Sys) (s : Sys) : List Op → Option Sys
   | [] => some s
-  | op :: ops => (step s op).bind (fun s' => tryChain s' ops)
+  | op :: ops => (stp s op).bind (fun s' => tryChain stp s' ops)
 
-def firstOf (s : Sys) : List (List Op) → Option Sys
+def firstOfS (stp : Sys → Op → Option Sys) (s : Sys) : List (List Op) → Option Sys
   | [] => none
-  | c :: cs => match tryChain s c with
+  | c :: cs => match tryChain stp s c with
     | some s' => some s'
-    | none => firstOf s cs
+    | none => firstOfS stp s cs
 
 /-- one history event → (new state, what the model computed for it) -/
-def replayOne (s : Sys) (j : Json) : R (Option (Sys × Json)) := do
+def replayOne (step : Sys → Op → Option Sys) (s : Sys) (j : Json) : R (Option (Sys × Json)) := do
+  let firstOf := firstOfS step
   let op ← str j "op"
   let p := (nat j "p").toOption.getD 0
   let sub? := getSub s p
@@ -171,18 +173,20 @@ def replayOne (s : Sys) (j : Json) : R (Option (Sys × Json)) := do
     | none => pure (some (s, jstr "stutter"))
   | _ => throw s!"unknown system op {op}"
 
-def replay (s : Sys) : List Json → Nat → List Json → R (Sys × List Json × Option Nat)
+def replay (stp : Sys → Op → Option Sys) (s : Sys) : List Json → Nat → List Json → R (Sys × List Json × Option Nat)
   | [], _, outs => pure (s, outs.reverse, none)
   | j :: js, i, outs => do
-    match ← replayOne s j with
-    | some (s', o) => replay s' js (i + 1) (o :: outs)
+    match ← replayOne stp s j with
+    | some (s', o) => replay stp s' js (i + 1) (o :: outs)
     | none => pure (s, outs.reverse, some i)
 
 def systemOps : List (String × (Json → R Json)) := [
   ("system.trace", fun j => do
     let sc ← parseScn (← fld j "scn")
     let evs ← arr j "events"
-    let (s, outs, rej) ← replay (Jade.Sys.init sc) evs.toList 0 []
+    -- "plain": the execution was fault-free: replay through `stepP` (extra guards collectedAll / roundDone)
+    let plain := (bool j "plain").toOption.getD false
+    let (s, outs, rej) ← replay (if plain then Jade.Sys.stepP else Jade.Sys.step) (Jade.Sys.init sc) evs.toList 0 []
     let procState := fun (p : Nat) => match s.procs p with
       | .none => "none"
       | .sub a x => (if a then "" else "dead:") ++ pcName x.pc
